@@ -1,5 +1,5 @@
 rc_target("c19_datetime", flavour="asan")
-plan("C19", [T("c19_datetime", 50000, 500000)], min_nt=29000,
+plan("C19", [T("c19_datetime", 80000, 700000)], min_nt=45000,
      rule="instants and harness-rendered date strings against an independent proleptic-Gregorian reference",
      technique="property-based testing (rapidcheck) against a reference calendar written in the harness (days-from-civil / civil-from-days, "
                "cross-checked at start-up against a day-by-day walk over 1970..9999): format/parse round trips, reference rendering, "
